@@ -32,6 +32,8 @@ def correspondence(ctx, model_available=True):
     spec_failures = [f for f in lres["spec_failures"] if "raised" in f["what"]]
     surv = {"texts": 0, "runs": 0, "with_errors": 0, "clean": 0}
     for t in fc.survival_texts(rng, 500 if quick else 8000):
+        if len(spec_failures) >= 3:
+            break                   # enough to report; hanging inputs cost a time budget each
         surv["texts"] += 1
         for mode in fc.MODES:
             # texts with includes are parsed as a file in a directory, so that paths are resolved
